@@ -147,6 +147,12 @@ type Scenario struct {
 	// Spans: give every context group a started span (needed for C18's link
 	// clauses).
 	Spans bool `json:"spans,omitempty"`
+	// Retain: the next consumer keeps every batch it accepted and modifies it
+	// on its own goroutine after returning (it owns the batch)
+	Retain bool `json:"retain_and_mutate,omitempty"`
+	// SmallIDs: the harness's TracerProvider numbers the spans of each trace
+	// 1, 2, 3 ..., so the request spans of different traces share a span id
+	SmallIDs bool `json:"small_span_ids,omitempty"`
 }
 
 // Summary renders the scenario on one line (for samples and messages).
